@@ -16,6 +16,12 @@ LEVEL_TEXT = {
  "C14": "MC_Tree checks the announced-header bookkeeping invariants; trace validation checks refusal/answer of every data endpoint against the specification's gate (api flag, requested network, max announced height vs tip + 2) under flag changes, forks and stabilisation; refusals must leave the projected state unchanged",
  "C15": "trace validation compares every fee percentile answer and the cache (tip, 101 values) with the specification's nearest-rank percentiles over the fee rates (real vsize from the harness) of the best chain's unstable blocks, eager and lazy, across reorgs and upgrades",
  "C20": "trace validation compares after every message the hook snapshot (block bodies in stable memory, tx-out reference counts, per-block per-address added / removed outpoints, cached tip depths, announced-header indexes) with what the specification derives declaratively from the tree",
+ "C11": "HeaderRules.tla states the consensus rules (median-time-past, +2h, compact targets as BigNat values, 2016-block retarget with 4x clamp, BIP94 first-block base on testnet4, 20-minute rule and walk-back, no retargeting on regtest); TLC validates the implementation's required target (hook), timestamp verdict and full validate_header verdict on synthetic chains around retarget boundaries on the three networks, mined regtest candidates with every field perturbed, and the 2633 real mainnet headers shipped with the repository (each also perturbed); BigNat arithmetic is model-checked against native arithmetic",
+ "C12": "MC_Merkle: TLC proves on a collision-free hash abstraction, for every list over n <= 5 (thorough 7) transactions up to length 7 (8), that a list with the original merkle root that differs from the original repeats a transaction, and prints every such mutation; each is replayed on real blocks (real double-SHA256 root preserved, DuplicateTransactions required) together with reorderings, removals, swaps, repeats and the unmutated block; TLC validates every verdict, also end-to-end through state::insert_block",
+ "C16": "TLC validates the cycles accepted by every recorded call (mock cycles balance) against Charged / Required of Canister.tla under random small fee tables (zero, cap binding), instruction counts set through the performance-counter hook, cycles attached around the maximum, request-level errors and gate refusals; the client constants of ic-cdk-bitcoin-canister are compared with the default fee tables of the three networks as BigNat values",
+ "C17": "MC_Watchdog: TLC explores all rounds over a 6-value grid for 4 providers from all states and checks latest-round-only, order independence and the decision as worded; the real watchdog is driven through its fetch path with ic_http mocks (all multisets on the grid for the five targets, failures of ten kinds, consecutive rounds so that stale heights would show) and TLC validates every decision",
+ "C18": "Transform.tla gives the result as a function of endpoint kind and response class; the harness calls every endpoint's transform (and the exported query) on constructed responses of every class (heights up to 2^64-1, wrong types, missing members, truncation, invalid UTF-8, arbitrary statuses and headers, whitespace / member-order / extra-member variants) and on arbitrary byte strings; TLC validates status, absence of headers, canonical body",
+ "C19": "TLC validates every recorded send_transaction call (result, counter, forwarded payload unchanged, cycles) against SendTx of Canister.tla; payloads are serialisations of random transactions (legacy, segwit, zero inputs / outputs), truncated, extended, prefixed, bit-flipped, garbage, empty, classified by an independent BIP144 parser in the harness; all access flags and requested networks",
 }
 
 NOTE = ("native Rust harness (no wasm / PocketIC): message atomicity and trap rollback are assumed from the IC; TLC and the "
@@ -38,10 +44,12 @@ def main():
             "add_only": True,
         },
         "engines": [
-            {"name": "tlc-trace-validation", "path": "/verif/spec/TraceCanister.tla", "serves_properties": [p for p in claimed if p not in ("C11", "C12", "C16", "C17", "C18", "C19")],
+            {"name": "tlc-trace-validation", "path": "/verif/spec/TraceCanister.tla", "serves_properties": [p for p in claimed if p not in ("C11", "C12", "C17", "C18")],
              "kind_free_text": "TLC checks ndjson traces recorded from the real canister (harness `run`) against Canister.tla"},
-            {"name": "tlc-model-checking", "path": "/verif/spec/MC_Tree.tla", "serves_properties": ["C02", "C03", "C04", "C07", "C10", "C14"],
-             "kind_free_text": "TLC exhaustive exploration of bounded instances of the specification"},
+            {"name": "tlc-model-checking", "path": "/verif/spec/MC_Tree.tla", "serves_properties": ["C02", "C03", "C04", "C07", "C10", "C11", "C12", "C14", "C16", "C17"],
+             "kind_free_text": "TLC exhaustive exploration of bounded instances of the specification (MC_Tree, MC_Merkle, MC_Watchdog, MC_BigNat)"},
+            {"name": "tlc-decision-validation", "path": "/verif/spec/TraceDecision.tla", "serves_properties": ["C11", "C12", "C16", "C17", "C18"],
+             "kind_free_text": "TLC checks recorded calls of the implementation's decision functions against TLA+ operators (TraceDecision.tla, TraceHeaders.tla)"},
             {"name": "harness", "path": "/verif/harness", "serves_properties": claimed,
              "kind_free_text": "Rust: builds real blocks / transactions / addresses from abstract scenarios, drives the canister natively through its public entry points, projects the state back to abstract ids"},
         ],
@@ -58,7 +66,7 @@ def main():
                 "thorough_cmd": f"bin/check {pid} --tier thorough",
                 "evidence_file": f"/verif/evidence/{pid}.json",
                 "replay_cmd_template": f"bin/check {pid} --replay {{path}}",
-                "engine": "tlc-trace-validation",
+                "engine": "tlc-decision-validation" if pid in ("C11", "C12", "C17", "C18") else "tlc-trace-validation",
                 "level_claimed": {"category": "model_checking", "text": LEVEL_TEXT[pid], "design_ref": f"DESIGN.md section 5, {pid}"},
                 "level_note": NOTE,
                 "technique": TECH.get(pid, "TLA+ specification: TLC trace validation of recorded executions of the real code + TLC model checking of bounded instances"),
